@@ -107,7 +107,10 @@ def run(tier, seed):
              S("Sorghum", "SiltClay", seed=seed + 4, irr={"method": 4}, field={"mulches": True, "mulch_pct": 40, "f_mulch": 0.6}, iwc={"value": ["WP"]}),
              # profiles on which water backs up to the surface (impeding sub-layer, wet weather): surface bookkeeping is exercised
              S("Wheat", "Paddy", seed=seed + 5, regime="wet", iwc={"value": ["SAT", "SAT"], "depth_layer": [1, 2]}),
-             S("Tomato", seed=seed + 6, regime="monsoon", soil_spec=L.LAYERED_SOILS["low_ksat"], iwc={"value": ["FC", "SAT"], "depth_layer": [1, 2]}, off_season=True, lead=12)]
+             S("Tomato", seed=seed + 6, regime="monsoon", soil_spec=L.LAYERED_SOILS["low_ksat"], iwc={"value": ["FC", "SAT"], "depth_layer": [1, 2]}, off_season=True, lead=12),
+             # irrigation that wets only part of the surface (so that surface-cover features interact with it), dry weather
+             S("Maize", "Loam", seed=seed + 7, regime="arid", irr={"method": 2, "kw": {"IrrInterval": 6, "WetSurf": 30, "AppEff": 80}}),
+             S("Potato", "SandyLoam", seed=seed + 8, regime="arid", irr={"method": 1, "kw": {"SMT": [70] * 4, "WetSurf": 50}}, field={"bunds": True, "z_bund": 0.05})]
     if tier == "thorough":
         bases += [S(c, rnd.choice(L.SOILS), seed=rnd.randrange(10 ** 6), irr=rnd.choice([None, {"method": 1, "kw": {"SMT": [50] * 4}}, {"method": 5, "kw": {"depth": 3}}]),
                     off_season=rnd.random() < 0.5, events=rnd.choice([None, L.storm_events(2001, (4, 20))]))
